@@ -21,7 +21,8 @@ CONSTANTS Cfgs,        \* set of threshold configurations [id, lw, lc, ewn, ecn,
           DevNoCap,             \* deviation: MaxSamples cap not applied
           DevHealthNotChecked,  \* deviation: set of probe kinds whose gate is missing
           DevDegradedPasses,    \* deviation: gate rejects only "unavailable"
-          DevGateHoisted        \* deviation: produce reads the rating once per request instead of once per partition
+          DevGateHoisted,       \* deviation: produce reads the rating once per request instead of once per partition
+          DevIgnoreCtxErrors    \* deviation: failed S3 operations whose error wraps a context error (timeouts) are not recorded
 VARIABLES cfg, now, samples, state, recent, ret, probe, nops, hist
 vars == <<cfg, now, samples, state, recent, ret, probe, nops, hist>>
 
@@ -95,14 +96,16 @@ Probe(kind) ==
 \* One Produce request for two partitions whose first partition's flush fails in S3: uploadFlush starts the segment and
 \* the index upload concurrently, so nerr = 1 or 2 failed operations are recorded (the second upload may be cancelled
 \* before it starts) before the handler reaches the second partition, which must be gated on the NEW rating.
-Produce2(nerr) ==
+Produce2(nerr, ctxerr) ==
   /\ nops < MaxOps /\ "produce" \in Kinds
   /\ LET s0 == IF DevNoTruncOnQuery THEN samples ELSE Trunc(samples, now)
          st0 == RateOf(cfg, s0)
          pass1 == st0 = "healthy" \/ "produce" \in DevHealthNotChecked \/ (DevDegradedPasses /\ st0 = "degraded")
          bad == [ts |-> now, lat |-> 0, err |-> TRUE]
          add(q, k) == IF k = 0 THEN q ELSE Trunc(Cap(Append(IF k = 2 THEN Trunc(Cap(Append(q, bad)), now) ELSE q, bad)), now)
-         s1 == IF pass1 THEN add(s0, nerr) ELSE s0
+         \* ctxerr: the refused uploads fail with an error wrapping context.DeadlineExceeded (a hanging endpoint) instead of a plain error;
+         \* either way they are failed S3 operations and enter the window through handler.recordS3Op
+         s1 == IF pass1 /\ ~(DevIgnoreCtxErrors /\ ctxerr) THEN add(s0, nerr) ELSE s0
          st1 == RateOf(cfg, s1)
          pass2 == IF DevGateHoisted THEN pass1
                   ELSE st1 = "healthy" \/ "produce" \in DevHealthNotChecked \/ (DevDegradedPasses /\ st1 = "degraded")
@@ -114,13 +117,13 @@ Produce2(nerr) ==
                         code |-> IF pass2 THEN 0 ELSE BpCode(st1)] >>
         /\ ret' = [is |-> TRUE, o |-> ObsOf(cfg, now, rec1, st1)]
   /\ nops' = nops + 1
-  /\ hist' = Append(hist, [a |-> "Produce2", nerr |-> nerr])
+  /\ hist' = Append(hist, [a |-> "Produce2", nerr |-> nerr, ctx |-> ctxerr])
   /\ UNCHANGED <<cfg, now>>
 
 Next == \/ \E lat \in Lats, err \in BOOLEAN : Record(lat, err)
         \/ Tick \/ Query
         \/ \E k \in Kinds : Probe(k)
-        \/ \E k \in {1, 2} : Produce2(k)
+        \/ \E k \in {1, 2}, c \in BOOLEAN : Produce2(k, c)
 Spec == Init /\ [][Next]_vars
 
 \* every window summary that can occur, rated by the (possibly deviant) rating function: the "grid"
